@@ -16,6 +16,7 @@ func init() {
 		Rule: "a run draws one scrape job (scheme, metrics path, multi-valued params, honor flags, 0-3 relabel rules from: labelmap of meta labels, replace into a label / __address__ / __scheme__ / __metrics_path__ / __param_x / a config param / job, drop, keep, labeldrop, labelkeep, hashmod) and 1-3 target groups (addresses with and without port, IPv6 literals, group vs target labels, meta labels, label names invalid for Prometheus, duplicates inside and across groups, targets dropped by relabeling, instances that fail population) and pushes them through the real parties in sequence: TargetsDiscovery -> ActiveTargetsByHash -> JSON -> real sidecar POST route -> injector file -> config.Load + scrape.TargetsFromGroup (Prometheus stub) -> real proxy -> URL seen at the target; the multiset of (final labels, scheme, host, path, query) must equal that of scrape.TargetsFromGroup on the original job, de-duplicated as the scrape pool does; a case is the set of generator features present",
 		Real: []string{"discovery.TargetsDiscovery", "shard.UpdateTargetsRequest JSON", "sidecar.Service / TargetsManager / Injector / Proxy", "scrape.Scraper (URL really requested)"},
 		Stub: []string{"Prometheus of the shard (real config.Load + scrape.TargetsFromGroup on the generated file)", "the reference is the vendored Prometheus library on the original job", "targets (record the request URL)"},
+		SchedLabels: []string{"next", "release_yield", "drain_yield", "yield", "probe", "read_kind", "workers", "get_target", "sd_target", "advance_s", "label_order_salt?", "label_order_salt.a", "label_order_salt.b", "target_order", "group_of", "group_order", "new_instance"},
 		Assume: []string{"input-dominated property (DESIGN 6): no fault kind applies; the simulated part is the chain of real parties and encodings"},
 	})
 	core.Register(&core.Spec{
@@ -24,6 +25,7 @@ func init() {
 		Rule: "a run draws 1-4 base targets (two jobs with different scheme/path/params/relabeling), for each up to 3 near-duplicate pairs that differ in exactly one component (label value, added label, address, port, path, scheme, param label, param overriding a config param), exact duplicates and meta-label-only differences, and feeds the same logical targets through the real TargetsDiscovery.Run in 2-5 rounds with drawn target order, group assignment and order, group/target label split and map-iteration salt (label order), re-created TargetsDiscovery instances and a child OS process; a case is (what was varied: round | instance | process, groups, lifted labels) or (component in which a pair differs)",
 		Real: []string{"discovery.TargetsDiscovery (Run, translate, ActiveTargetsByHash)", "prom.ConfigManager", "a separate OS process"},
 		Stub: []string{"Prometheus SD manager (sim emits the target groups)"},
+		SchedLabels: []string{"next", "release_yield", "drain_yield", "yield", "probe", "read_kind", "workers", "get_target", "sd_target", "advance_s", "label_order_salt?", "label_order_salt.a", "label_order_salt.b", "target_order", "group_of", "group_order", "new_instance"},
 		Assume: []string{"input-dominated property (DESIGN 6): the simulated dimensions are discovery rounds, emission order, label iteration order, instance re-creation and a second process"},
 	})
 	core.Register(&core.Spec{
@@ -31,6 +33,7 @@ func init() {
 		QuickRuns: 30000, ThorRuns: 150000, QuickCap: 60 * time.Second, ThorCap: 12 * time.Minute,
 		Rule: "a run has 1-5 targets, each with a drawn pattern of 0-5 probe failures (connect, non-200, body break, time-out on the fake clock) before its first success, 1-8 explorer workers, and a drawn interleaving of Get calls, probe completions (parked at the probe transport and released in drawn order), fake-clock advances, discovery updates removing / re-adding targets (also inside the retry wait), reloads keeping the job, and lock-acquisition order at the explorer's yield points; checked at the transport: no probe before the first Get, at most one probe per target in flight, no probe after success, retry not in the same instant, at most one queued probe after removal; after a quiet phase every asked discovered target has succeeded and Get / the shard target carry the probe's (kept,total); a case is (failures before success) x (plain | readded) x asked? x workers",
 		Real: realDisco, Stub: stubDisco, TapeCap: 20000,
+		SchedLabels: []string{"next", "release_yield", "drain_yield", "yield", "probe", "read_kind", "workers", "get_target", "sd_target", "advance_s", "label_order_salt?", "label_order_salt.a", "label_order_salt.b", "target_order", "group_of", "group_order", "new_instance"},
 		Assume: []string{"a parked probe is never held longer than the job's scrape time-out (the transport honours the request context)", "retry liveness is asserted after a 150 s quiet phase rather than with a per-retry deadline (the statement gives no bound; the README's 5 s is not used)"},
 	})
 	core.Register(&core.Spec{
@@ -38,6 +41,7 @@ func init() {
 		QuickRuns: 30000, ThorRuns: 150000, QuickCap: 60 * time.Second, ThorCap: 12 * time.Minute,
 		Rule: "a run is a drawn interleaving of up to ~38 operations over 3 jobs x 4 addresses: asynchronous discovery updates (emit = invoke, translation appearing on ActiveTargetsChan = return; full maps incl. stale jobs, partial first rounds), reloads adding/removing/keeping jobs, readers (ActiveTargets, DropTargets, ActiveTargetsByHash), with every goroutine parked before each Lock() in pkg/discovery and pkg/explore and released in drawn order, so reads and reloads overlap in-flight updates inside their critical-section sequence; the history (stamped with event sequence numbers) is checked with porcupine against a sequential model, plus snapshot immutability, WaitInit, end-state (deleted jobs absent, explorer tracks the latest forward); a case is (operation kinds mixed) x overlapped? x length class; trivial = a single kind",
 		Real: realDisco, Stub: stubDisco, TapeCap: 20000,
+		SchedLabels: []string{"next", "release_yield", "drain_yield", "yield", "probe", "read_kind", "workers", "get_target", "sd_target", "advance_s", "label_order_salt?", "label_order_salt.a", "label_order_salt.b", "target_order", "group_of", "group_order", "new_instance"},
 		Assume: []string{"an update's effect may be placed anywhere between its emission and the appearance of its translation (wider than reality, never stricter)", "porcupine time-outs are counted inconclusive, never violations"},
 	})
 }
